@@ -196,7 +196,8 @@ def build_argv(rng, rec, tmp, idx, allow_files=True, in_process=True):
     if tf is not None:
         argv += ["--time-format", tf]
     meta["time_format"] = tf or "%S"
-    pf = rng.choice((None, None, "{id}#{start}#{end}#{duration}", "[{id}]: {start} -> {end}", "{start} {end}", "{id}\\t{duration}"))
+    pf = rng.choice((None, None, "{id}#{start}#{end}#{duration}", "[{id}]: {start} -> {end}", "{start} {end}", "{id}\\t{duration}",
+                     "d\u00e9but {id} \u2192 {start} \u00e0 {end}", "\u4e8b\u4ef6{id} \u2014 {duration}"))
     if pf is not None:
         argv += ["--printf", pf]
     meta["printf"] = pf or "{id} {start} {end}"
@@ -218,7 +219,7 @@ def build_argv(rng, rec, tmp, idx, allow_files=True, in_process=True):
         if rng.random() < 0.3:
             d = os.path.join(tmp, f"dets{idx}")
             os.makedirs(d, exist_ok=True)
-            meta["o"] = os.path.join(d, rng.choice(("det_{id}.wav", "ev_{id}_{start:.3f}_{end:.3f}.wav", "d{id}_{duration:.2f}.raw")))
+            meta["o"] = os.path.join(d, rng.choice(("det_{id}.wav", "ev_{id}_{start:.3f}_{end:.3f}.wav", "d{id}_{duration:.2f}.raw", "x{id}_{duration}.wav", "y_{start}_{end}_{id}.raw")))
             argv += [rng.choice(("-o", "--save-detections-as")), meta["o"]]
     meta["audio_kw"] = dict(sampling_rate=rate, sample_width=width, channels=channels)
     return argv, kw, meta
@@ -277,7 +278,7 @@ def run_in_process(argv, stdin_bytes, pipe_rng=None):
 
 
 def run_subprocess(argv, stdin_bytes):
-    env = dict(os.environ, PYTHONPATH=os.environ.get("VERIF_REPO", "/repo"), PYTHONDONTWRITEBYTECODE="1")
+    env = dict(os.environ, PYTHONPATH=os.environ.get("VERIF_REPO", "/repo"), PYTHONDONTWRITEBYTECODE="1", PYTHONIOENCODING="utf-8")
     p = subprocess.Popen([sys.executable, "-m", "auditok.cmdline"] + list(argv), stdin=subprocess.PIPE, stdout=subprocess.PIPE,
                          stderr=subprocess.PIPE, env=env)
     try:
